@@ -50,11 +50,35 @@ type EmbB struct {
 	EmbBytes []byte
 }
 
+// Three levels of embedding: Emb1 embeds Emb2 embeds Emb3 (index paths of length 4 from an embedding struct).
+type Emb3 struct {
+	EmbP int
+	EmbQ string
+	EmbR int16
+}
+type Emb2 struct {
+	Emb3
+	EmbM uint8
+}
+type Emb1 struct {
+	Emb2
+	EmbN bool
+}
+
+var emb3Spec = &TypeSpec{K: "struct", Named: "Emb3", Fields: []FieldSpec{{Name: "EmbP", Type: &TypeSpec{K: "int"}}, {Name: "EmbQ", Type: &TypeSpec{K: "string"}}, {Name: "EmbR", Type: &TypeSpec{K: "int16"}}}}
+var emb2Spec = &TypeSpec{K: "struct", Named: "Emb2", Fields: []FieldSpec{{Name: "Emb3", Embedded: true, Type: emb3Spec}, {Name: "EmbM", Type: &TypeSpec{K: "uint8"}}}}
+var emb1Spec = &TypeSpec{K: "struct", Named: "Emb1", Fields: []FieldSpec{{Name: "Emb2", Embedded: true, Type: emb2Spec}, {Name: "EmbN", Type: &TypeSpec{K: "bool"}}}}
+
+// NamedSpec returns the specification of a predeclared embeddable struct type.
+func NamedSpec(name string) *TypeSpec { return namedSpecs[name] }
+
 var namedSpecs = map[string]*TypeSpec{
+	"Emb1": emb1Spec, "Emb2": emb2Spec, "Emb3": emb3Spec,
 	"EmbA": {K: "struct", Named: "EmbA", Fields: []FieldSpec{{Name: "EmbInt", Type: &TypeSpec{K: "int"}}, {Name: "EmbName", Type: &TypeSpec{K: "string"}}}},
 	"EmbB": {K: "struct", Named: "EmbB", Fields: []FieldSpec{{Name: "EmbFlag", Type: &TypeSpec{K: "bool"}}, {Name: "EmbBytes", Type: &TypeSpec{K: "slice", Elem: &TypeSpec{K: "uint8"}}}}},
 }
-var namedTypes = map[string]reflect.Type{"EmbA": reflect.TypeOf(EmbA{}), "EmbB": reflect.TypeOf(EmbB{})}
+var namedTypes = map[string]reflect.Type{"EmbA": reflect.TypeOf(EmbA{}), "EmbB": reflect.TypeOf(EmbB{}),
+	"Emb1": reflect.TypeOf(Emb1{}), "Emb2": reflect.TypeOf(Emb2{}), "Emb3": reflect.TypeOf(Emb3{})}
 
 var intKinds = []string{"int", "int8", "int16", "int32", "int64", "uint", "uint8", "uint16", "uint32", "uint64"}
 var scalarKinds = append([]string{"bool", "float32", "float64", "string", "string"}, intKinds...)
@@ -137,7 +161,10 @@ func genStruct(t *rapid.T, o *ValOpts, depth int) *TypeSpec {
 	used := map[string]bool{}
 	for i := 0; i < n; i++ {
 		if o.Embedded && rapid.IntRange(0, 5).Draw(t, "struct.emb") == 0 {
-			name := pick(t, "struct.embname", []string{"EmbA", "EmbB"})
+			name := pick(t, "struct.embname", []string{"EmbA", "EmbB", "Emb1", "Emb2"})
+			if (name == "Emb1" || name == "Emb2") && (used["Emb1"] || used["Emb2"]) {
+				name = "EmbA" // Emb1 and Emb2 promote the same field names
+			}
 			if !used[name] {
 				used[name] = true
 				s.Fields = append(s.Fields, FieldSpec{Name: name, Embedded: true, Type: namedSpecs[name]})
